@@ -16,11 +16,11 @@ import (
 	"fmt"
 	"net"
 	"net/netip"
-	"sort"
 	"strings"
 	"sync"
 
 	"github.com/miekg/dns"
+	"github.com/semihalev/sdns/config"
 	"github.com/semihalev/sdns/internal/authority"
 	"github.com/semihalev/sdns/internal/verif/l3"
 	"github.com/semihalev/sdns/internal/verif/vlib"
@@ -49,9 +49,9 @@ type sysState struct {
 	// per-query scripts of the attacker, keyed by lower-cased qname
 	scripts map[string]func(q dns.Question, honest *dns.Msg) *dns.Msg
 	// spoofed datagrams emitted in front of the victim server's genuine reply, keyed by qname
-	spoof map[string]func(req *dns.Msg) []*dns.Msg
-	asked map[string]bool // client questions issued so far ("name/type")
-	mu    sync.RWMutex
+	spoof    map[string]func(req *dns.Msg) []*dns.Msg
+	asked    map[string]bool // client questions issued so far ("name/type")
+	mu       sync.RWMutex
 	lastTags string
 }
 
@@ -94,7 +94,7 @@ func rrSOA(owner string) dns.RR {
 		Serial: 666, Refresh: 3600, Retry: 600, Expire: 86400, Minttl: 300}
 }
 
-func sysNew(mode string) {
+func sysNew(mode string, qmin int) {
 	sysClose()
 	w := l3.NewWorld(false)
 	// a trap server stands behind loopback / local-interface addresses: the
@@ -159,7 +159,7 @@ func sysNew(mode string) {
 		}
 		return nil
 	}})
-	s.p = l3.NewPipe(w, l3.PipeOpts{DNSSEC: false})
+	s.p = l3.NewPipe(w, l3.PipeOpts{DNSSEC: false, Tweak: func(cfg *config.Config) { cfg.QnameMinLevel = qmin }})
 	sys = s
 }
 
@@ -445,12 +445,18 @@ func (s *sysState) attack(shape string, k int) (string, string) {
 			m.Answer = []dns.RR{own, &dns.DNAME{Hdr: dns.RR_Header{Name: victimZone, Rrtype: dns.TypeDNAME, Class: dns.ClassINET, Ttl: 300}, Target: evilZone}}
 		})
 	case "cname-forged":
-		script(func(m *dns.Msg) { m.Answer = []dns.RR{rrCNAME(qn, "www.victim.test."), rrA("www.victim.test.", forgedIP)} })
+		script(func(m *dns.Msg) {
+			m.Answer = []dns.RR{rrCNAME(qn, "www.victim.test."), rrA("www.victim.test.", forgedIP)}
+		})
 	case "cname-forged-ghost":
-		script(func(m *dns.Msg) { m.Answer = []dns.RR{rrCNAME(qn, "ghost.victim.test."), rrA("ghost.victim.test.", forgedIP)} })
+		script(func(m *dns.Msg) {
+			m.Answer = []dns.RR{rrCNAME(qn, "ghost.victim.test."), rrA("ghost.victim.test.", forgedIP)}
+		})
 	case "cname-forged-txt":
 		qtype = dns.TypeTXT
-		script(func(m *dns.Msg) { m.Answer = []dns.RR{rrCNAME(qn, "txt.victim.test."), rrTXT("txt.victim.test.", "forged")} })
+		script(func(m *dns.Msg) {
+			m.Answer = []dns.RR{rrCNAME(qn, "txt.victim.test."), rrTXT("txt.victim.test.", "forged")}
+		})
 	case "cname-honest":
 		script(func(m *dns.Msg) { m.Answer = []dns.RR{rrCNAME(qn, "www.victim.test.")} })
 	// ---- negative answers carrying foreign records
@@ -467,11 +473,20 @@ func (s *sysState) attack(shape string, k int) (string, string) {
 		})
 	// ---- referrals that do not progress
 	case "ref-self":
-		referral(func(m *dns.Msg) { m.Ns = []dns.RR{rrNS(evilZone, "ns.evil.test.", dns.ClassINET)}; withOpt(m, rrA("ns.evil.test.", evilIP)) })
+		referral(func(m *dns.Msg) {
+			m.Ns = []dns.RR{rrNS(evilZone, "ns.evil.test.", dns.ClassINET)}
+			withOpt(m, rrA("ns.evil.test.", evilIP))
+		})
 	case "ref-up":
-		referral(func(m *dns.Msg) { m.Ns = []dns.RR{rrNS("test.", "ns.evil.test.", dns.ClassINET)}; withOpt(m, rrA("ns.evil.test.", evilIP)) })
+		referral(func(m *dns.Msg) {
+			m.Ns = []dns.RR{rrNS("test.", "ns.evil.test.", dns.ClassINET)}
+			withOpt(m, rrA("ns.evil.test.", evilIP))
+		})
 	case "ref-root":
-		referral(func(m *dns.Msg) { m.Ns = []dns.RR{rrNS(".", "ns.evil.test.", dns.ClassINET)}; withOpt(m, rrA("ns.evil.test.", evilIP)) })
+		referral(func(m *dns.Msg) {
+			m.Ns = []dns.RR{rrNS(".", "ns.evil.test.", dns.ClassINET)}
+			withOpt(m, rrA("ns.evil.test.", evilIP))
+		})
 	case "ref-side":
 		referral(func(m *dns.Msg) {
 			m.Ns = []dns.RR{rrNS(victimZone, "ns.evil.test.", dns.ClassINET)}
@@ -489,7 +504,10 @@ func (s *sysState) attack(shape string, k int) (string, string) {
 			withOpt(m, rrA("ns."+sub, evilIP), rrA("ns.evil.test.", evilIP))
 		})
 	case "ref-class":
-		referral(func(m *dns.Msg) { m.Ns = []dns.RR{rrNS(sub, "ns."+sub, dns.ClassCHAOS)}; withOpt(m, rrA("ns."+sub, evilIP)) })
+		referral(func(m *dns.Msg) {
+			m.Ns = []dns.RR{rrNS(sub, "ns."+sub, dns.ClassCHAOS)}
+			withOpt(m, rrA("ns."+sub, evilIP))
+		})
 	case "ref-offpath":
 		referral(func(m *dns.Msg) {
 			m.Ns = []dns.RR{rrNS("other.evil.test.", "ns.other.evil.test.", dns.ClassINET)}
@@ -498,7 +516,10 @@ func (s *sysState) attack(shape string, k int) (string, string) {
 	// ---- glue that must not be used
 	case "glue-oob":
 		// the NS host is the victim's real name server name; the glue points at the attacker
-		referral(func(m *dns.Msg) { m.Ns = []dns.RR{rrNS(sub, "ns1.victim.test.", dns.ClassINET)}; withOpt(m, rrA("ns1.victim.test.", evilIP)) })
+		referral(func(m *dns.Msg) {
+			m.Ns = []dns.RR{rrNS(sub, "ns1.victim.test.", dns.ClassINET)}
+			withOpt(m, rrA("ns1.victim.test.", evilIP))
+		})
 	case "glue-notns":
 		referral(func(m *dns.Msg) {
 			m.Ns = []dns.RR{rrNS(sub, "ns."+sub, dns.ClassINET)}
@@ -598,7 +619,11 @@ var allShapes = []string{
 func execL3(f []string) vlib.Res {
 	switch f[1] {
 	case "new":
-		sysNew(f[2])
+		qmin := 0
+		if len(f) > 3 {
+			qmin = vlib.Atoi(f[3])
+		}
+		sysNew(f[2], qmin)
 		return vlib.Res{Impl: "ok", Oracle: "-"}
 	case "close":
 		sysClose()
@@ -625,5 +650,3 @@ func execL3(f []string) vlib.Res {
 	}
 	return vlib.Res{Impl: "bad-op"}
 }
-
-var _ = sort.Strings
